@@ -3,6 +3,7 @@ from __future__ import annotations
 
 import ast
 
+from ..algebra import is_const
 from ..interp import Interp, SELF, contains, show, strip_typed, walk
 from ..model import AnalysisError
 from . import util
@@ -120,3 +121,28 @@ def check(ctx) -> None:
                "measurement errors are applied on every returning path on which one of the rates is positive" if bad == 0 else
                f"{f.cls.name}.sample: {bad} path(s) with a positive false-positive/false-negative rate return the counts "
                f"without applying measurement errors")
+
+
+def mps_sample_gauge(ctx) -> None:
+    """MPS.sample draws site by site from the left, conditioning on the sites already drawn; the marginal of the first
+    site is read off factor 0, which is only right when the orthogonality centre is site 0.  Every path that samples
+    has therefore called orthogonalize(0) first — unconditionally (a known centre elsewhere is exactly the bad case)."""
+    prog = ctx.prog
+    f = prog.func(SAMPLERS[0])
+    it = Interp(prog, f.cls, inline=lambda c, r, d: False, loop_iters=(1,))
+    n = bad = 0
+    for p in it.run(f):
+        if p.status != "return":
+            continue
+        n += 1
+        orth = [e for e in p.events if e.kind == "call" and e.name.endswith("MPS.orthogonalize") and strip_typed(e.recv) == ("self",)]
+        ok = bool(orth) and is_const(orth[0].args.get("desired_orthogonality_center", ("default", ("const", 0))), 0) and \
+            p.events.index(orth[0]) == min(i for i, e in enumerate(p.events) if e.kind == "call")
+        guarded = bool(orth) and any("orthogonality_center" in show(c) for c, t in p.cond_log[: orth[0].ncond])
+        if not ok or guarded:
+            bad += 1
+    ctx.require(n >= 1, "ROLE-readout: MPS.sample has no returning path")
+    ctx.ob("ROLE-readout", "MPS.sample gauges to site 0 first", f.loc(), bad == 0,
+           "every path of MPS.sample starts by orthogonalize(0), whatever centre the state claims" if bad == 0 else
+           f"{bad} path(s) of MPS.sample draw from factor 0 without first moving the orthogonality centre there: a state "
+           f"whose centre is known to be elsewhere is sampled from a wrong (non-Born) distribution")
